@@ -73,6 +73,23 @@ func (li *Language) CheckSyntax(expression string) error {
 	return nil
 }
 
+// CheckKeyCondition reports whether the expression has the form DynamoDB requires of the key condition of
+// a Query: an equality on the partition key, optionally joined by AND with one sort key condition
+func (li *Language) CheckKeyCondition(expression string, aliases map[string]string, partitionKey, sortKey string) error {
+	p := language.NewParser(language.NewLexer(expression))
+	conditional := p.ParseConditionalExpression()
+
+	if len(p.Errors()) != 0 {
+		return fmt.Errorf("%w: %s", ErrSyntaxError, strings.Join(p.Errors(), "\n"))
+	}
+
+	if !language.IsKeyCondition(conditional, aliases, partitionKey, sortKey) {
+		return fmt.Errorf("%w: Query key condition not supported: %s", ErrSyntaxError, expression)
+	}
+
+	return nil
+}
+
 func buildAliases(input UpdateInput) map[string]string {
 	aliases := map[string]string{}
 	for k, v := range input.Aliases {
